@@ -390,7 +390,7 @@ def viMotionln (row : Int) (cmd : Int) : M (Int × Int) := do
   else if c == 72 then fin (min (s.ed.xtop + cnt - 1) (n - 1))
   else if c == 76 then fin (min (s.ed.xtop + s.xrows - 1 - cnt + 1) (n - 1))
   else if c == 77 then fin (min (s.ed.xtop + s.xrows / 2) (n - 1))
-  else if c == cmd then fin (min (row + cnt - 1) (n - 1))      -- also a NUL key at top level (cmd = 0)
+  else if cmd != 0 && c == cmd then fin (min (row + cnt - 1) (n - 1))
   else if c == 37 && (s.arg1 != 0 || s.arg2 != 0) then
     if cnt > 100 then pure (-1, row) else fin ((max 0 (n - 1)) * cnt / 100)
   else do
@@ -501,7 +501,11 @@ def viMotion (row off : Int) : M (Int × Int × Int) := do
     if m ≤ 0 then fail else
     match s.ed.lb.bind (fun lb => jump lb m.toNat) with
     | none => fail
-    | some (p, q) => ok p q
+    | some (p, q) =>
+      -- the line may have got shorter since the mark was set: the column is clamped to it
+      match lineAt ls p with
+      | some ln => ok p (min q (max 0 ((ucSlen ln : Int) - 1)))
+      | none => ok p q
   else if mv == 37 then
     match pair ls row off with
     | none => fail
